@@ -268,4 +268,43 @@ func ArrayRules.AtMostOneOfEachTypeValidator
   requires true
 func ArrayValidationMode.HasMode
   ensures r0 <==> bitand(av, mode) > 0
+
+-- ---------------------------------------------------------------------------------------------------------------
+-- objects and payloads: reading never panics on any input and stays inside the input (inv: 0 <= offset <= len(src)) -
+-- the type denotation / payload type is only read where enough bytes are left, the selected Serializable gets exactly
+-- the rest of the input, and the offset advances by what it reports (assumed: a Deserialize that reports success
+-- consumed 0 <= n <= len(data) bytes; the selector returns an object when it returns no error). Storing the object in
+-- the target (a type switch and reflection) is abstracted.
+assume-func github.com/iotaledger/hive.go/serializer/v2.Deserializer.readSerializableIntoTarget(d, target, s)
+  modifies nothing
+func Serializable.Deserialize(recv, data, mode, ctx) (n, err)
+  ensures err == nil ==> 0 <= n && n <= len(data)
+
+func Deserializer.readObject
+  requires d != nil && inv(d)
+  callback errProducer(e) (r)
+  callback serSel(ty) (seri, serr)
+    ensures serr == nil ==> seri != nil
+  modifies d.offset, d.err
+  ensures r0 == d && inv(d) && d.src == old(d.src) && d.offset >= old(d.offset)
+  ensures old(d.err) != nil ==> d.offset == old(d.offset) && d.err == old(d.err)
+
+func Deserializer.ReadObject
+  requires d != nil && inv(d)
+  callback errProducer(e) (r)
+  callback serSel(ty) (seri, serr)
+    ensures serr == nil ==> seri != nil
+  modifies d.offset, d.err
+  ensures r0 == d && inv(d) && d.src == old(d.src) && d.offset >= old(d.offset)
+
+-- a payload: uint32 length marker, then (unless it is 0) the payload, whose own type code is read only when the
+-- minimum payload size is there, and whose size must be exactly what the marker said
+func Deserializer.ReadPayload
+  requires d != nil && inv(d)
+  callback errProducer(e) (r)
+  callback sel(ty) (seri, serr)
+    ensures serr == nil ==> seri != nil
+  modifies d.offset, d.err
+  ensures r0 == d && inv(d) && d.src == old(d.src) && d.offset >= old(d.offset)
+  ensures old(d.err) != nil ==> d.offset == old(d.offset) && d.err == old(d.err)
 @*/
